@@ -716,8 +716,7 @@ def work_hostile(arg):
                     except BaseException as e:
                         r = type(e).__name__
                     part.hist('outside_domain:cursor_not_inside_text(observation only)',
-                              '%s %s line=%+d col=%+d -> %s' % (name, 'newline-terminated' if text.endswith('\n') else 'unterminated',
-                                                                pos[0] - n, pos[1] - len(ci.Lines(text).lines[-1]), r))
+                              '%s(%r, %s) -> %s' % (name, text, pos, r))
     part.sample({'workload': 'hostile', 'names': [H[i]['name'] for i in arg['indexes'][:5]]})
     return m.dump()
 
@@ -773,10 +772,11 @@ def work_compiled(arg):
 def dispatch(arg):
     import time
     fn, a = arg
-    t0 = time.time()
+    t0, c0 = time.time(), time.process_time()
     r = globals()[fn](a)
     if isinstance(r, dict):
         r['c08_wall'] = round(time.time() - t0, 1)
+        r['c08_cpu'] = round(time.process_time() - c0, 1)
     return r
 
 
@@ -815,7 +815,9 @@ def collect(run, jobs, timeout):
 
     def take(r, a=None):
         if a is not None and 'c08_wall' in r:
-            walls.append([r['c08_wall'], a[0], json.dumps(a[1])[:100]])
+            run.extra['worker_cpu_seconds(diagnostic only)'] = round(
+                run.extra.get('worker_cpu_seconds(diagnostic only)', 0) + r.get('c08_cpu', 0), 1)
+            walls.append([r['c08_wall'], r.get('c08_cpu'), a[0], json.dumps(a[1])[:100]])
             walls.sort(reverse=True)
             del walls[8:]
         for entry, v in (r.get('c08_max_steps') or {}).items():
@@ -889,6 +891,7 @@ def main(run):
     }
     run.extra['violation_instances_by_mechanism'] = dict(run.hists.get('violation_instances', {}))
     prune(run)
+    run.extra['inconclusive_reasons'] = [x[:600] for x in run.inconclusive[:20]]
     return run.finish(
         rule='case = one real file (with its stratified cursor positions), one typing-state mutation of a file, one generated '
              'program / class project, one hostile text (every (line, col) tried) or one compiled module; non-trivial = files whose '
@@ -930,9 +933,8 @@ def replay(run, path):
     for v in data['violations']:
         c = v['case']
         if 'job' in c:
-            print('replay: worker-death cases are re-created by re-running the job %s' % json.dumps(c['job'])[:300])
-            r = dispatch(c['job'])
-            run.merge(r)
+            print('replay: re-running the job %s in a worker process' % json.dumps(c['job'])[:300])
+            core.run_parts(run, 'vf.props.c08:dispatch', [c['job']], timeout=3600, died_is_violation=True)
             continue
         tmp = None
         try:
